@@ -409,20 +409,25 @@ fn run_bgzf(x: &[u8]) {
 // substituted byte (by the layout of the unmutated seed) is recomputed, so the corruption reaches the slice / record decoder instead of
 // stopping at a checksum.  Truncations are run as they are.
 pub(crate) fn cram_raw_seeds() -> Vec<Vec<u8>> {
+    // EMBEDDED (f77_seed.hex): a file the CRAM writer produced from SAM_BODY with every block uncompressed.  The writer's output is not byte-stable
+    // across processes (hash-map order of the tag dictionary), and the inputs of this target must be the same in every run.
+    let hexs = include_str!("f77_seed.hex").trim();
+    vec![(0..hexs.len() / 2).map(|i| u8::from_str_radix(&hexs[2 * i..2 * i + 2], 16).unwrap()).collect()]
+}
+/// how the embedded seed was made (kept so that it can be regenerated: `verif-native bounded-print-cram-raw-seed`)
+pub(crate) fn cram_raw_seed_fresh() -> Vec<u8> {
     use sam::alignment::io::Write as _;
     use noodles_cram::container::{block_content_encoder_map::Builder as MapBuilder, compression_header::data_series_encodings::DataSeries as D};
-    let STANDARD_DATA_SERIES = [D::BamFlags, D::CramFlags, D::ReferenceSequenceIds, D::ReadLengths, D::AlignmentStarts, D::ReadGroupIds, D::Names, D::MateFlags, D::MateReferenceSequenceIds, D::MateAlignmentStarts, D::TemplateLengths, D::MateDistances, D::TagSetIds, D::FeatureCounts, D::FeatureCodes, D::FeaturePositionDeltas, D::DeletionLengths, D::StretchesOfBases, D::StretchesOfQualityScores, D::BaseSubstitutionCodes, D::InsertionBases, D::ReferenceSkipLengths, D::PaddingLengths, D::HardClipLengths, D::SoftClipBases, D::MappingQualities, D::Bases, D::QualityScores];
-    static SEED: std::sync::OnceLock<Vec<u8>> = std::sync::OnceLock::new();
-    vec![SEED.get_or_init(|| {
-        let header = sam_header();
-        let mut rd = sam::io::Reader::new(SAM_BODY.as_bytes());
-        let mut mb = MapBuilder::default().set_core_data_encoder(None).set_default_encoder(None);
-        for ds in STANDARD_DATA_SERIES.iter() { mb = mb.set_data_series_encoder(*ds, None); }
-        let mut w = noodles_cram::io::writer::Builder::default().set_reference_sequence_repository(cram_repo()).set_block_content_encoder_map(mb.build()).build_from_writer(Vec::new());
-        w.write_header(&header).unwrap();
-        for r in rd.record_bufs(&header) { let r = r.unwrap(); w.write_alignment_record(&header, &r).unwrap(); }
-        w.try_finish(&header).unwrap();
-        w.get_ref().clone() }).clone()]
+    let standard = [D::BamFlags, D::CramFlags, D::ReferenceSequenceIds, D::ReadLengths, D::AlignmentStarts, D::ReadGroupIds, D::Names, D::MateFlags, D::MateReferenceSequenceIds, D::MateAlignmentStarts, D::TemplateLengths, D::MateDistances, D::TagSetIds, D::FeatureCounts, D::FeatureCodes, D::FeaturePositionDeltas, D::DeletionLengths, D::StretchesOfBases, D::StretchesOfQualityScores, D::BaseSubstitutionCodes, D::InsertionBases, D::ReferenceSkipLengths, D::PaddingLengths, D::HardClipLengths, D::SoftClipBases, D::MappingQualities, D::Bases, D::QualityScores];
+    let header = sam_header();
+    let mut rd = sam::io::Reader::new(SAM_BODY.as_bytes());
+    let mut mb = MapBuilder::default().set_core_data_encoder(None).set_default_encoder(None);
+    for ds in standard.iter() { mb = mb.set_data_series_encoder(*ds, None); }
+    let mut w = noodles_cram::io::writer::Builder::default().set_reference_sequence_repository(cram_repo()).set_block_content_encoder_map(mb.build()).build_from_writer(Vec::new());
+    w.write_header(&header).unwrap();
+    for r in rd.record_bufs(&header) { let r = r.unwrap(); w.write_alignment_record(&header, &r).unwrap(); }
+    w.try_finish(&header).unwrap();
+    w.get_ref().clone()
 }
 fn crc32(x: &[u8]) -> u32 { let mut c = 0xffff_ffffu32; for &b in x { c ^= b as u32; for _ in 0..8 { c = if c & 1 != 0 { (c >> 1) ^ 0xedb8_8320 } else { c >> 1 }; } } !c }
 /// (start, end) of every CRC-protected region of the seed: container headers and blocks; the CRC32 is the 4 bytes at `end`
